@@ -250,6 +250,7 @@ type Normer struct {
 	MaxInline  int
 	memo       map[ssa.Value]Poly
 	sliceLen   map[string]ssa.Value
+	lb         *lbCtx
 	FoldTables bool // reads of immutable package tables at constant positions become constants
 }
 
@@ -582,6 +583,19 @@ func (n *Normer) normBinOp(x *ssa.BinOp) Poly {
 		}
 		return pAtom("Shr(" + a.String() + "," + b.String() + ")")
 	case token.AND, token.OR, token.XOR, token.AND_NOT:
+		// x & (2^k - 1) == x % 2^k for a non-negative x (lower-bound domain)
+		if x.Op == token.AND {
+			for _, pair := range [][2]ssa.Value{{x.X, x.Y}, {x.Y, x.X}} {
+				if k, ok := constInt(pair[1]); ok && k >= 3 && (k+1)&k == 0 {
+					if n.lb == nil {
+						n.lb = newLbCtx(n.P)
+					}
+					if lb := n.lb.lb(pair[0]); lb != lbUnknown && lb >= 0 {
+						return pAtom("Mod(" + n.Norm(pair[0]).String() + "," + pConst(int64(k)+1).String() + ")")
+					}
+				}
+			}
+		}
 		as, bs := a.String(), b.String()
 		if x.Op != token.AND_NOT && as > bs {
 			as, bs = bs, as
@@ -804,6 +818,41 @@ func (n *Normer) normCall(x *ssa.Call) Poly {
 			return pAtom(strings.Title(b.Name()) + "(" + strings.Join(args, ",") + ")")
 		}
 		return n.atom(b.Name() + "(" + strings.Join(args, ",") + ")")
+	}
+	// a method value (x.M bound earlier, called later): the method with its receiver put back
+	if mc, ok := cc.Value.(*ssa.MakeClosure); ok && len(mc.Bindings) == 1 {
+		if w, ok := mc.Fn.(*ssa.Function); ok && strings.Contains(w.Synthetic, "bound method") {
+			var real *ssa.Function
+			eachInstr(w, func(b *ssa.BasicBlock, ins ssa.Instruction) {
+				if c2, ok := ins.(*ssa.Call); ok && c2.Common().StaticCallee() != nil {
+					real = c2.Common().StaticCallee()
+				}
+			})
+			if real != nil && isRepoFunc(real) {
+				args := []string{n.Norm(mc.Bindings[0]).String()}
+				for _, a := range cc.Args {
+					args = append(args, n.Norm(a).String())
+				}
+				// (kept uninterpreted unless it is a single-block helper)
+				if n.depth < n.MaxInline && inlinable(real) && !n.NoInline[n.P.FuncName(real)] {
+					ret := real.Blocks[0].Instrs[len(real.Blocks[0].Instrs)-1].(*ssa.Return)
+					env := map[ssa.Value]Poly{}
+					all := append([]ssa.Value{mc.Bindings[0]}, cc.Args...)
+					for i, p := range real.Params {
+						if i < len(all) {
+							env[p] = n.Norm(all[i])
+						}
+					}
+					n.env = append(n.env, env)
+					n.depth++
+					res := n.Norm(ret.Results[0])
+					n.depth--
+					n.env = n.env[:len(n.env)-1]
+					return res
+				}
+				return n.atom("call:" + n.P.FuncName(real) + "(" + strings.Join(args, ",") + ")")
+			}
+		}
 	}
 	callee := cc.StaticCallee()
 	if callee == nil {
